@@ -9,10 +9,10 @@ BATCH_INVS = ("TypeOK ConcurrencyBound WgCount AllSettledAtPost NoFakeSuccess At
 PLAN = {
     "C06": dict(mc_q=[("seq", 3, 1, 2, True), ("gated", 3, 2, 1, True), ("gatedcancel", 2, 2, 1, True), ("eres", 2, 2, 2, True), ("conc", 2, 2, 2, False)],
                 mc_t=[("seq", 4, 1, 2, True), ("gated", 4, 3, 1, True), ("gated", 3, 2, 2, True), ("gatedcancel", 3, 2, 2, True), ("conc", 3, 2, 2, False)],
-                gen_q=("continue,stop,cancel,single,empty,waves,storm,wait,cancelfeed", 60), gen_t=("continue,stop,cancel,single,empty,waves,storm,wait,cancelfeed", 1500)),
+                gen_q=("continue,stop,cancel,single,empty,waves,storm,wait,cancelfeed,dup", 60), gen_t=("continue,stop,cancel,single,empty,waves,storm,wait,cancelfeed,dup", 1500)),
     "C07": dict(mc_q=[("seq", 3, 1, 2, True), ("gated", 3, 2, 2, True), ("conc", 2, 2, 2, False)],
                 mc_t=[("seq", 4, 1, 3, True), ("gated", 3, 2, 2, True), ("gated", 4, 3, 1, True), ("conc", 3, 2, 2, False)],
-                gen_q=("continue,waves,storm,wait,rebudget,fbhold", 90), gen_t=("continue,waves,storm,wait,rebudget,fbhold", 2600)),
+                gen_q=("continue,waves,storm,wait,rebudget,fbhold,dup", 90), gen_t=("continue,waves,storm,wait,rebudget,fbhold,dup", 2600)),
     "C08": dict(mc_q=[("gated", 3, 2, 1, True), ("conc", 2, 2, 2, False)],
                 mc_t=[("gated", 4, 3, 1, True), ("conc", 3, 2, 2, False), ("conc", 3, 3, 1, False)],
                 gen_q=("barrier,continue,rerun,backoff,storm", 60), gen_t=("barrier,continue,stop,rerun,backoff,storm", 1000)),
@@ -96,7 +96,7 @@ def collect(pid, tier, seed, d, binp):
     # code -> spec: recorded histories (of a size TLC can search) must be explained by FlytBatch
     def small(r):
         c = r["cfg"]
-        return (c["via"] != "flow" and c["n"] <= 6 and c["c"] <= 3 and c["sched"] != "barrier"
+        return (r.get("fam") == "batch" and c["via"] != "flow" and c["n"] <= 6 and c["c"] <= 3 and c["sched"] != "barrier"
                 and not any(e["ev"] in ("stuck", "hang", "panic", "routed") for e in r["h"]))
     tv_n, tv_ok, tv_states, tv_trans = trace_validate(d, "TraceBatch", hist, keep=small, shards=8, limit=1500 if tier == "quick" else 12000)
     states += tv_states
